@@ -21,17 +21,19 @@ func init() {
 	Register(&Monitor{
 		ID:         "C06",
 		Level:      "exploration",
-		Exhaustive: []string{"deep", "long", "fnargs", "utf8edge"},
+		Exhaustive: []string{"deep", "long", "mixed", "fnargs", "utf8edge"},
 		Rule: "every recursive construct of the grammar nested to depth 10, 10^2, ... up to the tier's maximum ( ((((1)))), a[a[a[...]]], not(not(...)), -(-(...)), a/((((b)))) - the parseStep/parseSequence cycle -, a/(a/(a/(...))), unterminated a/((((, f(f(f(...))), (a|(a|(...))) ) and every iterative construct to length 3*10^k (a/a/..., 1+1+..., a|a|..., a or a ..., a[1][1]..., a//a..., f(1,1,...), -----1, long names, long strings, long numbers), each through Compile, CompileWithNS (nil, empty, bound, unbound maps) and MustCompile; " +
+			"every ORDERED PAIR of recursive constructs alternating (a[not(a[not(...)])], (a[(a[...])]), f(-(f(-(...)))), ...) to depth 6..1000 - a build step that repeats work per level turns such inputs into a hang; namespace maps with the empty string and malformed strings as keys; " +
 			"grammar-generated valid expressions and their truncations at every byte; every function name x every list of 0-3 arguments over 9 argument kinds (number, string, path, boolean call, invalid regex, parenthesised and negated literals, variable, comparison); seeded random token strings over the token alphabet plus arbitrary bytes (NUL, invalid UTF-8, non-ASCII name characters). The worker's maximum goroutine stack is lowered to 64 MiB so that unbounded recursion surfaces at depth ~10^5. " +
 			"Non-trivial: the input is longer than 8 bytes; distinct by input text (hash).",
 		Assume:        []string{"a fatal runtime error kills only the worker process; the driver attributes it to the case announced last", "CPU budget per case: 150 s (observed maximum for 3 MB inputs: a few seconds)"},
 		MinNontrivial: tierN(50000, 500000),
-		Required:      []string{"deep", "long", "fuzz:accepted", "fuzz:rejected", "ns:unbound-rejected", "mustcompile", "fnargs:accepted", "fnargs:rejected"},
+		Required:      []string{"deep", "long", "mixed", "fuzz:accepted", "fuzz:rejected", "ns:unbound-rejected", "mustcompile", "fnargs:accepted", "fnargs:rejected"},
 		Families: []Family{
 			witnessFamily("C06"),
 			{Name: "deep", N: func(t string) int { return len(c06Deep(t)) }, Run: func(c *Case) { c06Construct(c, c06Deep(c.Tier)[c.Index], "deep") }},
 			{Name: "long", N: func(t string) int { return len(c06Long(t)) }, Run: func(c *Case) { c06Construct(c, c06Long(c.Tier)[c.Index], "long") }},
+			{CPUBudget: 60, Name: "mixed", N: func(string) int { return len(c06Wrappers) * len(c06Wrappers) * len(c06MixedDepths) }, Run: c06Mixed},
 			{CPUBudget: 40, Name: "trunc", N: tierN(1500, 60000), Run: c06Trunc},
 			{CPUBudget: 40, Name: "fuzz", N: tierN(1000, 40000), Run: c06Fuzz},
 			{CPUBudget: 40, Name: "fnargs", N: func(string) int { return len(xgen.AllFuncs) }, Run: c06FnArgs},
@@ -180,7 +182,7 @@ func (c *Case) c06Check(src string, label string) {
 		return e != nil && err == nil
 	}
 	acc := try("Compile", func() (*xpath.Expr, error) { return xpath.Compile(src) })
-	for _, ns := range []map[string]string{nil, {}, {"p": "urn:p"}} {
+	for _, ns := range []map[string]string{nil, {}, {"p": "urn:p"}, {"": "urn:default", "b": "urn:b"}, {"1b": "u", "-": "u", "a b": "u", "\xff": "u", "p": ""}} {
 		ns := ns
 		try("CompileWithNS", func() (*xpath.Expr, error) { return xpath.CompileWithNS(src, ns) })
 	}
@@ -325,4 +327,35 @@ func c06UTF8Edge(c *Case) {
 		}
 	}
 	c.Sample(map[string]interface{}{"family": "utf8edge", "prefix_bytes": n})
+}
+
+// c06Wrappers are the recursive constructs as (opening, closing) text; c06Mixed alternates two of them.
+var c06Wrappers = [][2]string{{"(", ")"}, {"a[", "]"}, {"not(", ")"}, {"-(", ")"}, {"count(a[", "])"}, {"(a|", ")"}, {"a[1+", "]"}, {"string(", ")"}, {"a[b=", "]"}}
+var c06MixedDepths = []int{6, 14, 26, 45, 95, 1000}
+
+func c06Mixed(c *Case) {
+	nw := len(c06Wrappers)
+	d := c06MixedDepths[c.Index%len(c06MixedDepths)]
+	a := c06Wrappers[(c.Index/len(c06MixedDepths))%nw]
+	b := c06Wrappers[(c.Index/len(c06MixedDepths)/nw)%nw]
+	var open, close strings.Builder
+	var closers []string
+	for i := 0; i < d; i++ {
+		w := a
+		if i%2 == 1 {
+			w = b
+		}
+		open.WriteString(w[0])
+		closers = append(closers, w[1])
+	}
+	for i := len(closers) - 1; i >= 0; i-- {
+		close.WriteString(closers[i])
+	}
+	src := open.String() + "a" + close.String()
+	c.Count("mixed")
+	c.c06Check(src, "mixed")
+	c.c06Check("//x["+src+"]", "mixed")
+	c.SampleEvery(41, func() interface{} {
+		return map[string]interface{}{"family": "mixed", "outer": a[0], "inner": b[0], "depth": d, "bytes": len(src)}
+	})
 }
